@@ -136,6 +136,16 @@ func (s *Service) unblindProposal(ctx context.Context,
 	// semaphore to track if a signed block has been returned by any provider.
 	sem := semaphore.NewWeighted(1)
 
+	// The blinded proposal sent to the providers.  It is built once, up front: the proposal itself is updated
+	// as soon as the first provider has answered, while the goroutines of the other providers may still be
+	// (re)trying.
+	blindedProposal := &api.VersionedSignedBlindedProposal{
+		Version:   proposal.Version,
+		Bellatrix: proposal.BellatrixBlinded,
+		Capella:   proposal.CapellaBlinded,
+		Deneb:     proposal.DenebBlinded,
+	}
+
 	// One slot per provider, so that a provider answering after the first never blocks on the send.
 	respCh := make(chan *api.VersionedSignedProposal, len(providers))
 	for _, provider := range providers {
@@ -151,12 +161,7 @@ func (s *Service) unblindProposal(ctx context.Context,
 			for retries := 3; retries > 0; retries-- {
 				// Unblind the blinded block.
 				signedProposalResponse, err = provider.UnblindProposal(ctx, &builderapi.UnblindProposalOpts{
-					Proposal: &api.VersionedSignedBlindedProposal{
-						Version:   proposal.Version,
-						Bellatrix: proposal.BellatrixBlinded,
-						Capella:   proposal.CapellaBlinded,
-						Deneb:     proposal.DenebBlinded,
-					},
+					Proposal: blindedProposal,
 				})
 
 				if !sem.TryAcquire(1) {
